@@ -652,7 +652,9 @@ Definition remove_base_impl_m (domain_root : bool) (src base : muri) (s : mstate
     else if domain_root then
       let '(ok, d, s) := copy_path_m d src s in
       if negb ok then (URI_ERROR_MALLOC, d, s) else
-      let '(ok, d, s) := fix_ambiguity_m (set_m_abs true d) s in
+      (* the path "/" is the absolute path without segments: the node of a lone empty segment is released *)
+      let '(d, s) := fix_empty_trail_m (set_m_abs true d) s in
+      let '(ok, d, s) := fix_ambiguity_m d s in
       if negb ok then (URI_ERROR_MALLOC, d, s) else finish d s
     else
       let '(s', b') := skip_common (pathSegs es) (pathSegs eb) in
